@@ -210,6 +210,7 @@ static void run_c15(long cases) {
         while (lv::now() < end) { pid_t w = waitpid(pid, &status, WNOHANG); if (w == pid) { exited = true; break; } lv::msleep(20); }
         if (!exited) { kill(pid, SIGKILL); waitpid(pid, &status, 0);
             viol(std::string("c15:client-hangs:scenario-") + std::to_string(scenario), "a batch (scenario " + std::to_string(scenario) + ") did not finish: the client is wedged (requests never settled or shutdown() never returns)", Json().num("i", idx).num("scenario", scenario).done()); }
+        else if (WIFEXITED(status) && WEXITSTATUS(status) != 0) viol("c15:client-crashes:scenario-" + std::to_string(scenario), "the client process crashed (handler exit " + std::to_string(WEXITSTATUS(status)) + ", see the crash record) in scenario " + std::to_string(scenario), Json().num("i", idx).num("scenario", scenario).done());
         else if (WIFSIGNALED(status)) viol("c15:client-crashes:signal-" + std::to_string(WTERMSIG(status)), "the client process died with signal " + std::to_string(WTERMSIG(status)) + " in scenario " + std::to_string(scenario), Json().num("i", idx).num("scenario", scenario).done());
         g_evals++;
     }
@@ -342,6 +343,25 @@ static void run_c02(long cases) {
         g_distinct.add(std::string(Http::methodString(in.method)) + "|" + std::to_string(in.query.size()) + "|" + std::to_string(in.headers.size()) + "|" + std::to_string(in.cookies.size()) + "|" + (in.body.empty() ? "0" : in.body.size() < 100 ? "s" : "L") + "|" + std::to_string(in.rkind) + "|" + std::to_string(in.rchunks.size()) + "|" + std::to_string(in.code / 100));
         count("round_trips");
         if (g_samples_left > 0 && (n % 61) == 5) { g_samples_left--; sample(wt); }
+    }
+    // boundary sweep: one streamed chunk of n bytes + a 4-byte tail chunk, n swept so that the end of a chunk's data (or the
+    // middle of its CRLF) falls on every offset around the client's 4096-byte read boundary
+    if (g_opts.shard == 0) {
+        for (int nsz = 3860; nsz <= 4110; nsz++) {
+            Intent in; in.method = Http::Method::Get; in.path = "/sweep" + std::to_string(nsz); in.code = 200; in.rkind = 1; in.rchunks = {(size_t)nsz, 4};
+            in.rbody = mg::octets(r, nsz + 4, 2);
+            { std::lock_guard<std::mutex> g(g_im); g_intents[in.path] = &in; }
+            std::atomic<int> done{0}; std::string gotBody; bool rejected = false; int gotCode = 0;
+            client.get(base + in.path).send().then([&](Http::Response resp) { gotCode = (int)resp.code(); gotBody = resp.body(); done = 1; }, [&](std::exception_ptr) { rejected = true; done = 1; });
+            bool fin = wait_for([&] { return done.load() == 1; }, 10.0 * lv::load_factor());
+            g_evals++;
+            { std::lock_guard<std::mutex> g(g_im); g_seen.erase(in.path); g_intents.erase(in.path); }
+            std::string wt = Json().str("phase", "c02-sweep").num("chunk", nsz).done();
+            if (!fin || rejected || gotCode != 200 || gotBody != in.rbody)
+                viol(std::string("c02:response:body:stream-at-read-boundary:") + (!fin ? "unsettled" : rejected ? "rejected" : "differs"), "streamed response with a " + std::to_string(nsz) + "-byte chunk + 4-byte chunk: " + (!fin ? "promise unsettled" : rejected ? "promise rejected" : "body differs"), wt);
+            g_distinct.add("sweep|" + std::to_string(nsz));
+            count("boundary_sweep");
+        }
     }
     client.shutdown();
     ep.shutdown();
